@@ -348,9 +348,19 @@ def _copula_stream(res, rng, viol):
         chains.append((ms, MarkovChainLevyCopula(levy_copula_model=model, grid=grid, method=SamplingMethod.INVERSION), grid))
     for which, (ms, chain, grid) in enumerate(chains):
         def tail(k):
+            # the chain's model is "the same copula applied to the margins TRUNCATED to the grid's truncation [l_k, r_k]"
+            # (model_tilde = deepcopy + truncate_levy_measure): U_k^t(x) = nu_k([x, r_k]) for x >= 0, -nu_k([l_k, x]) for x < 0
             nu = ms[k]
-            return lambda x: (0.0 if x in (float("inf"), float("-inf")) else
-                              (float(nu.moment_q(x, nu.breaks[-1], 0)) if x >= 0 else -float(nu.moment_q(nu.breaks[0], x, 0))))
+            l_k, r_k = (Fr(float(t)) for t in grid.truncations[k])
+
+            def u(x):
+                if x in (float("inf"), float("-inf")):
+                    return 0.0
+                xq = Fr(float(x))
+                if xq >= 0:
+                    return float(nu.moment_q(min(xq, r_k), r_k, 0)) if xq < r_k else 0.0
+                return -float(nu.moment_q(l_k, max(xq, l_k), 0)) if xq > l_k else 0.0
+            return u
         U = [tail(0), tail(1)]
         F = lambda u, v: clayton_F(u, v, theta, eta)
         ax = [float(x) for x in grid.axes[0]]
